@@ -270,6 +270,18 @@ def evaluate():
             ref = set_center(data, o2, crop=crop, axes=axes, order=order)
             ok = out.shape == ref.shape and np.allclose(out, ref, rtol=0, atol=1e-12)
             msg = 'shape %%r, with the unselected coordinate set to None %%r' %% (out.shape, ref.shape)
+    elif clause == 'ci-content':
+        # center_image with a whole-pixel origin = set_center of the image without its right-hand column
+        # (odd_size and an even number of columns), i.e. the translation spec applied to the trimmed image
+        meth = P['method'] if isinstance(P['method'], str) else tuple(P['method'])
+        out = center_image(data, method=meth, odd_size=P['odd_size'], square=False, crop=crop, axes=axes, order=order)
+        trimmed = data[:, :-1] if (P['odd_size'] and data.shape[1] %% 2 == 0) else data
+        org = (trimmed.shape[0] // 2, trimmed.shape[1] // 2) if meth == 'image_center' else meth
+        sel = selected(axes, org)
+        o = [whole_origin(org[a], trimmed.shape[a], order) if sel[a] else None for a in (0, 1)]
+        exp = spec_whole(trimmed, o[0], o[1], crop)
+        ok = out.shape == exp.shape and np.array_equal(out, exp)
+        msg = 'shape %%r -> %%r, expected %%r (centring of the %%r image)' %% (data.shape, out.shape, exp.shape, trimmed.shape)
     elif clause in ('odd', 'square'):
         out = center_image(data, method=P['method'] if isinstance(P['method'], str) else tuple(P['method']),
                            odd_size=P['odd_size'], square=P['square'], crop=crop, axes=axes, order=order)
@@ -480,12 +492,61 @@ def search(ctx, rng, budget):
                                       'center_image(square=True, odd_size=%s) returns shape %r for input %r'
                                       % (odd, shp, (n, m)), data + 1, (None, None), (0, 1), 'maintain_size', order,
                                       **common))
+    # ---- 4. center_image with every crop mode and axes selection ---------------
+    #      odd_size => odd width whatever crop / axes / method; whole-pixel origins: the result is the centring
+    #      of the image without its right-hand column (odd_size, even width)
+    for it in range(max(60, budget)):
+        n, m = (int(v) for v in rng.integers(1, 13, size=2)) if it % 6 else (int(rng.integers(20, 60)), int(rng.integers(20, 60)))
+        data = rng.integers(1, 10, size=(n, m)).astype([np.float64, np.int64][rng.integers(2)])
+        odd = bool(rng.random() < 0.7)
+        mt = m - 1 if (odd and m % 2 == 0) else m        # width after the odd_size trimming
+        if mt == 0:
+            continue
+        axes = AXES[rng.integers(4)]
+        order = int(rng.integers(0, 6))
+        r = rng.random()
+        if r < 0.3:
+            meth = 'image_center'
+        elif r < 0.8:
+            o0 = None if rng.random() < 0.2 else int(rng.integers(-n, n))
+            o1 = None if rng.random() < 0.2 else int(rng.integers(-mt, mt))
+            meth = (o0, o1)
+        else:
+            meth = ['com', 'convolution'][rng.integers(2)]
+        for crop in CROPS:
+            n_eval += 1
+            distinct.add(('ci4', crop, repr(axes), odd, n % 2, m % 2, meth if isinstance(meth, str) else
+                          tuple(v is None for v in meth)))
+            common = dict(method=meth if isinstance(meth, str) else list(meth), odd_size=odd, square=False)
+            try:
+                out = center_image(data, method=meth, odd_size=odd, square=False, crop=crop, axes=axes, order=order)
+                shp = out.shape
+            except Exception:       # noqa
+                out, shp = None, (-1, -1)
+            akey = repr(axes).replace(' ', '')
+            if odd and shp[1] % 2 != 1:
+                hits.append(mkhit('odd', 'C12:center_image:odd_size:width-not-odd:crop=%s:axes=%s' % (crop, akey),
+                                  'center_image(odd_size=True, crop=%r, axes=%r, method=%r) returns shape %r for input %r'
+                                  % (crop, axes, meth, shp, (n, m)), data, (None, None), axes, crop, order, **common))
+            if isinstance(meth, tuple) or meth == 'image_center':
+                org = (n // 2, mt // 2) if meth == 'image_center' else meth
+                trimmed = data[:, :mt]
+                sel = selected(axes, org)
+                o = [whole_origin(org[a], trimmed.shape[a], order) if sel[a] else None for a in (0, 1)]
+                exp = spec_whole(trimmed, o[0], o[1], crop)
+                if out is None or out.shape != exp.shape or not np.array_equal(out, exp):
+                    hits.append(mkhit('ci-content', 'C12:center_image:content:crop=%s:axes=%s:odd_size=%s' % (crop, akey, odd),
+                                      'center_image(odd_size=%s, crop=%r, axes=%r, method=%r) is not the centring of the image '
+                                      '%s: shape %r, expected %r' % (odd, crop, axes, meth,
+                                                                     'without its right-hand column' if mt != m else 'itself',
+                                                                     shp, exp.shape),
+                                      data, (None, None), axes, crop, order, **common))
     return hits, n_eval, len(distinct)
 
 
 def run(ctx):
     rng = np.random.default_rng(ctx.seed)
-    pr = vlib.coq_props('C12')
+    pr = vlib.coq_props('C12', translators=['center_src'])
     ctx.cov.update(obligations=len(pr['theorems']), discharged=pr['discharged'],
                    theorems=pr['theorems'], axioms=pr['axioms'],
                    checker_cmd='make -C /verif/coq props/C12.vo (coqc 8.16.1, full .vo build) + Print Assumptions',
@@ -501,7 +562,9 @@ def run(ctx):
                         'hundred pixels), 4 dtypes, orders 0..5, integer / None / negative origins and (order 0) '
                         'fractional origins away from ties, 4 axes values x 3 crop modes, compared with an independent '
                         'numpy statement of the clause; (2) fractional origins, orders 1..5, blobs with empty margins: '
-                        'total intensity, centroid, untouched axes, integer dtype; (3) center_image flags x shapes. '
+                        'total intensity, centroid, untouched axes, integer dtype; (3) center_image flags x shapes; (4) center_image with every '
+                        'crop mode, axes selection, odd_size value and method (image_center, explicit whole-pixel / None / negative '
+                        'origins, com, convolution): odd width, result = centring of the image without its right-hand column. '
                         'distinct = (crop, axes, parities, order, dtype kind, sign pattern) resp. (crop, axes, order, '
                         'dtype, negative) resp. (flags, parities, aspect); correspondence cases counted in evaluations only',
                    samples=[dict(kind=c['kind'], shape=list(c['IM'].shape), origin=[jsonable(v) for v in c['origin']],
